@@ -3,7 +3,7 @@
 //! The real `RpkiClient::serve_inner` runs over an in-memory duplex stream; the harness
 //! plays one or two conforming RTR caches following a generated script (full response,
 //! incremental rounds, cache reset, serial notify, error report, router-key PDUs,
-//! arbitrary chunking, session loss) and folds the script into the expected VRP set.
+//! arbitrary chunking, session loss at the end or in mid-conversation) and folds the script into the expected VRP set.
 
 use crate::common::*;
 use crate::rpki::verif as hook;
@@ -17,9 +17,9 @@ use std::net::{IpAddr, Ipv4Addr};
 use std::sync::Arc;
 use tokio::io::{AsyncReadExt, AsyncWriteExt};
 
-pub const RULE: &str = "cases: scripts of one or two conforming RTR caches (v0 / v1): a full response to the reset query (cache response, IPv4/IPv6 prefix announcements, router-key PDUs in v1, end of data), then 0-4 further rounds, each either an incremental update (client is poked to send a serial query; response with announcements and withdrawals), a cache reset answered by a new full set, a serial notify, or an error report; every PDU stream is cut into generated chunk sizes; the session may be closed at the end. \
+pub const RULE: &str = "cases: scripts of one or two conforming RTR caches (v0 / v1): a full response to the reset query (cache response, IPv4/IPv6 prefix announcements, router-key PDUs in v1, end of data), then 0-4 further rounds, each either an incremental update (client is poked to send a serial query; response with announcements and withdrawals), a cache reset answered by a new full set, a serial notify, or an error report; every PDU stream is cut into generated chunk sizes; the session may be closed at the end, or lost in mid-conversation before any round (right after a Serial Notify with a new serial, right after a Cache Reset, in the middle of a response before End-of-Data, while the client is told to poll, or idle) without the cache reading what the client still sends. \
 Oracle after every end-of-data (once the client is idle): VRPs installed for that cache == fold of the script, the other cache's VRPs untouched; the client has consumed every PDU (end-of-data counter == number sent); a cache reset is answered by a reset query; after the session ends the cache's VRPs are gone. \
-non-trivial := at least one incremental round containing a withdrawal, or an unused PDU type (router key / unknown) in mid-stream, or a second cache; distinct := distinct serialized case";
+non-trivial := at least one incremental round containing a withdrawal, or an unused PDU type (router key / unknown) in mid-stream, or a second cache, or a session lost in mid-conversation; distinct := distinct serialized case";
 
 #[derive(Clone, Debug, Serialize, Deserialize, PartialEq, Eq, PartialOrd, Ord, Hash)]
 pub struct Vrp {
@@ -43,8 +43,33 @@ pub enum Round {
     ErrorReport { code: u16, text: u8 },
 }
 
+/// the session is lost in mid-conversation (the cache's end of the connection goes away
+/// without reading what the client may still send)
+#[derive(Clone, Debug, Serialize, Deserialize)]
+pub enum LossKind {
+    /// Serial Notify with a new serial, then gone: the client's Serial Query meets a closed connection
+    AfterNotifyNew,
+    /// the polled cache answers Cache Reset, then gone: the client's Reset Query meets a closed connection
+    AfterCacheReset,
+    /// the polled cache sends Cache Response and these announcements / withdrawals, no End-of-Data, then gone
+    MidResponse(Vec<(bool, Vrp)>),
+    /// gone while the client is told to poll (its Serial Query meets a closed connection)
+    WhilePolled,
+    /// gone while idle
+    Idle,
+}
+
+#[derive(Clone, Debug, Serialize, Deserialize)]
+pub struct Loss {
+    /// before this round (capped at the number of rounds)
+    pub round: u8,
+    pub kind: LossKind,
+}
+
 #[derive(Clone, Debug, Serialize, Deserialize)]
 pub struct CacheScript {
+    #[serde(default)]
+    pub loss: Option<Loss>,
     pub v1: bool,
     pub session_id: u16,
     pub initial: Vec<Vrp>,
@@ -273,8 +298,76 @@ async fn run_case(c: &Case) -> CheckResult {
     // ---- rounds -------------------------------------------------------------
     let max_rounds = c.caches.iter().map(|s| s.rounds.len()).max().unwrap_or(0);
     let mut serial = vec![1u32; conns.len()];
-    for r in 0..max_rounds {
+    let mut lost = vec![false; conns.len()];
+    for r in 0..=max_rounds {
         for (i, s) in c.caches.iter().enumerate().take(2) {
+            if lost[i] {
+                continue;
+            }
+            if let Some(l) = &s.loss
+                && (l.round as usize).min(s.rounds.len()) == r
+            {
+                // ---- session loss in mid-conversation -------------------------
+                let kind = match &l.kind {
+                    LossKind::AfterNotifyNew => {
+                        let mut bytes = hdr(s.v1, 0, s.session_id, 12);
+                        bytes.extend_from_slice(&(serial[i] + 1).to_be_bytes());
+                        let _ = conns[i].io.write_all(&bytes).await;
+                        "after-notify"
+                    }
+                    LossKind::AfterCacheReset | LossKind::MidResponse(_) => {
+                        conns[i].client.soft_reset.notify_one();
+                        settle(&conns[i]).await;
+                        let _ = drain_queries(&mut conns[i]).await;
+                        if let LossKind::MidResponse(deltas) = &l.kind {
+                            let mut bytes = hdr(s.v1, 3, s.session_id, 8);
+                            let mut m = models[i].clone();
+                            for (announce, v) in deltas {
+                                let key = vrp_key(v);
+                                if (*announce && m.insert(key.clone())) || (!*announce && m.remove(&key)) {
+                                    bytes.extend(vrp_pdu(s.v1, *announce, v));
+                                }
+                            }
+                            let _ = conns[i].io.write_all(&bytes).await;
+                            "mid-response"
+                        } else {
+                            let _ = conns[i].io.write_all(&hdr(s.v1, 8, 0, 8)).await;
+                            "after-cache-reset"
+                        }
+                    }
+                    LossKind::WhilePolled => {
+                        conns[i].client.soft_reset.notify_one();
+                        "while-polled"
+                    }
+                    LossKind::Idle => "idle",
+                };
+                // the cache's end goes away at once, nothing the client sends is read
+                let (dead, _) = tokio::io::duplex(16);
+                drop(std::mem::replace(&mut conns[i].io, dead));
+                lost[i] = true;
+                if tokio::time::timeout(std::time::Duration::from_secs(5), &mut conns[i].client.task).await.is_err() {
+                    return Err(Failure::new("client-hangs", format!("cache {i}: the client task did not end within 5 s of the connection loss ({kind})")).with("loss", kind));
+                }
+                models[i].clear();
+                let left = installed_count(&tables, &conns[i].addr);
+                if left != 0 {
+                    return Err(Failure::new("vrp-after-close", format!("{left} VRPs of {} remain installed after its session was lost ({kind})", conns[i].addr)).with("loss", kind));
+                }
+                for (j, other) in conns.iter().enumerate() {
+                    if j != i && installed(&tables, &other.addr) != models[j] {
+                        return Err(Failure::new("vrp-set", format!("losing another cache's session changed the VRPs of {}", other.addr)).with("what", "close").with("missing", true).with("unexpected", false));
+                    }
+                }
+                info.nontrivial = true;
+                info = info.class("session-lost").class(match kind {
+                    "after-notify" => "lost/after-notify",
+                    "mid-response" => "lost/mid-response",
+                    "after-cache-reset" => "lost/after-cache-reset",
+                    "while-polled" => "lost/while-polled",
+                    _ => "lost/idle",
+                });
+                continue;
+            }
             let Some(round) = s.rounds.get(r) else { continue };
             match round {
                 Round::Incremental { deltas, router_keys } => {
@@ -375,30 +468,32 @@ async fn run_case(c: &Case) -> CheckResult {
     }
 
     // ---- session end --------------------------------------------------------
-    let mut i = 0;
-    while i < conns.len() {
-        if c.caches[i].close {
-            let conn = conns.remove(i);
-            let addr = conn.addr.clone();
-            drop(conn.io);
-            let _ = tokio::time::timeout(std::time::Duration::from_secs(5), conn.client.task).await;
-            models.remove(i);
-            let left = installed_count(&tables, &addr);
-            if left != 0 {
-                return Err(Failure::new("vrp-after-close", format!("{left} VRPs of {addr} remain installed after its session ended")));
-            }
-            // the others are untouched
-            for (j, other) in conns.iter().enumerate() {
-                if installed(&tables, &other.addr) != models[j] {
-                    return Err(Failure::new("vrp-set", format!("closing another cache's session changed the VRPs of {}", other.addr)).with("what", "close").with("missing", true).with("unexpected", false));
-                }
-            }
-            info = info.class("session-closed");
-        } else {
-            i += 1;
+    for i in 0..conns.len() {
+        if lost[i] || !c.caches[i].close {
+            continue;
         }
+        let addr = conns[i].addr.clone();
+        let (dead, _) = tokio::io::duplex(16);
+        drop(std::mem::replace(&mut conns[i].io, dead));
+        lost[i] = true;
+        let _ = tokio::time::timeout(std::time::Duration::from_secs(5), &mut conns[i].client.task).await;
+        models[i].clear();
+        let left = installed_count(&tables, &addr);
+        if left != 0 {
+            return Err(Failure::new("vrp-after-close", format!("{left} VRPs of {addr} remain installed after its session ended")).with("loss", "end"));
+        }
+        // the others are untouched
+        for (j, other) in conns.iter().enumerate() {
+            if j != i && installed(&tables, &other.addr) != models[j] {
+                return Err(Failure::new("vrp-set", format!("closing another cache's session changed the VRPs of {}", other.addr)).with("what", "close").with("missing", true).with("unexpected", false));
+            }
+        }
+        info = info.class("session-closed");
     }
-    for conn in conns {
+    for (i, conn) in conns.into_iter().enumerate() {
+        if lost[i] {
+            continue;
+        }
         conn.client.cancel.cancel();
         let _ = tokio::time::timeout(std::time::Duration::from_secs(5), conn.client.task).await;
     }
@@ -424,9 +519,20 @@ fn arb_round() -> impl Strategy<Value = Round> {
     ]
 }
 
+fn arb_loss() -> impl Strategy<Value = Option<Loss>> {
+    let kind = prop_oneof![
+        3 => Just(LossKind::AfterNotifyNew),
+        2 => Just(LossKind::AfterCacheReset),
+        3 => proptest::collection::vec((prop::bool::weighted(0.6), arb_vrp()), 0..5).prop_map(LossKind::MidResponse),
+        2 => Just(LossKind::WhilePolled),
+        1 => Just(LossKind::Idle),
+    ];
+    prop_oneof![3 => Just(None), 2 => (0u8..6, kind).prop_map(|(round, kind)| Some(Loss { round, kind }))]
+}
+
 fn arb_script() -> impl Strategy<Value = CacheScript> {
-    (any::<bool>(), any::<u16>(), proptest::collection::vec(arb_vrp(), 0..7), 0u8..3, proptest::collection::vec(arb_round(), 0..5), proptest::collection::vec(prop_oneof![1u8..8, 8u8..40, Just(255u8)], 0..4), prop::bool::weighted(0.4))
-        .prop_map(|(v1, session_id, initial, initial_router_keys, mut rounds, chunks, close)| {
+    (arb_loss(), any::<bool>(), any::<u16>(), proptest::collection::vec(arb_vrp(), 0..7), 0u8..3, proptest::collection::vec(arb_round(), 0..5), proptest::collection::vec(prop_oneof![1u8..8, 8u8..40, Just(255u8)], 0..4), prop::bool::weighted(0.4))
+        .prop_map(|(loss, v1, session_id, initial, initial_router_keys, mut rounds, chunks, close)| {
             // incremental withdrawals should hit: retarget half of them at known VRPs
             let mut known: Vec<Vrp> = initial.clone();
             for r in rounds.iter_mut() {
@@ -441,7 +547,7 @@ fn arb_script() -> impl Strategy<Value = CacheScript> {
                     }
                 }
             }
-            CacheScript { v1, session_id, initial, initial_router_keys, rounds, chunks, close }
+            CacheScript { loss, v1, session_id, initial, initial_router_keys, rounds, chunks, close }
         })
 }
 
